@@ -453,6 +453,17 @@ def r10(tree, rep, tier):
 
 
 def run(tree, rep, tier):
+    # R11: Manager.fail records the failure on the main channel before anything else can run (and possibly raise): the pending and future
+    # connect() calls are failed first
+    ff_ = tree.func(MGR, "Manager", "fail")
+    body_ = [st_ for st_ in ff_.body if not (isinstance(st_, ast.Expr) and isinstance(st_.value, ast.Constant))]
+    first_ = body_[0] if body_ else None
+    ok_ = first_ is not None and any(isinstance(c_, ast.Call) and (dotted(c_.func) or "").endswith("_main_channel.error") for c_ in ast.walk(first_)) \
+        and isinstance(first_, ast.Expr)
+    rep.check("C17.R11", "Manager.fail errors the main channel first (before status updates or any other call that could raise)", ok_, site(ff_, MGR),
+              key="C17.R11:fail:error-first",
+              what="Manager.fail does something else before it records the failure on the main channel: if that raises (an application status "
+                   "callback), connect() calls on an incapable peer wait for ever")
     from .. import sharedstate
     sharedstate.check(tree, rep, "C17.R0")
     prog = Program(tree)
